@@ -25,6 +25,7 @@ EXPLANATION = (
     'functions.  One element per thread over all interleavings and combine/iteration coverage are NOT decided.')
 EXPLANATION += ' Added after the seeded-change rounds: ' + "D1 also: a caller leaves do_collaborative_call_once only as the winner or after it observed the state done; D5 also: a new ETS hash array is sized from the caller's own ticket; no user operation runs between appending an element to my_locals and marking it built (violated on the pinned tree: known findings)."
 EXPLANATION += ' Added in the third session (round-3 seeds and the findings they led to): ' + "D5 also: emptying the table of a per-instance-key container destroys and re-creates the native key (the only way to drop every thread's cached pointer); nothing can fail between the creation of a thread's element and the claim of its slot (violated: known finding)."
+EXPLANATION += ' Added later in the fourth round: ' + 'D5 also: a function of ets_base that gives table slots to keys accounts for them in my_count (increment, or a store whose value comes from the source container / a count); the result of creating the per-instance TLS key is examined.'
 ASSUMPTIONS = ['instantiations of drivers/algorithms.cpp (once flag with and without arguments, ETS with both key policies)']
 ND = ['one element per thread over all interleavings of first accesses and table growth', 'combine / iteration coverage']
 
